@@ -180,7 +180,8 @@ def misc():
 
 
 def tasks(tier):
-    return [('contracts.c11', 'appends', ()), ('contracts.c11', 'pops', ()), ('contracts.c11', 'misc', ())]
+    return [('contracts.c11', 'appends', ()), ('contracts.c11', 'pops', ()), ('contracts.c11', 'misc', ()),
+            ('contracts.c11', 'index_task', ())]
 
 
 def meta(results, tier):
@@ -191,3 +192,84 @@ def meta(results, tier):
                             'existing length <= maxlen at open (reopening with a smaller maxlen is not trimmed by __init__)',
                             'A-SQL-iso for the atomic section of append'],
             'explanation': 'delegate and atomic-section obligations for the queue-end operations of Deque'}
+
+
+# ------------------------------------------------------------------ positional access: Deque._index
+KEYAT = z3.Function('deque_key_at', z3.IntSort(), OTHER)
+
+
+def install_index_loops(ctx):
+    from pyvc.env import int_term as _it
+
+    def inv_fwd(it, fr, i):
+        idx = _it(fr.locals['index'])
+        return z3.And(idx == it.st.ghost['index0'] - i, idx >= 0)
+
+    def inv_bwd(it, fr, i):
+        idx = _it(fr.locals['index'])
+        return z3.And(idx == it.st.ghost['index0'] + 1 + i, idx <= 0)
+    q = 'diskcache.persistent.Deque._index'
+    ctx.loop_invariants[(q, 0)] = LoopSpec('C11._index.forward', inv_fwd)
+    ctx.loop_invariants[(q, 1)] = LoopSpec('C11._index.backward', inv_bwd)
+
+
+def index_task():
+    """deque[i], deque[i] = v, del deque[i]: the sorted-key walk reaches exactly position i (normalised),
+    IndexError exactly outside [-len, len)."""
+    from pyvc.loops import SymSeq
+    ctx = cctx()
+    install_index_loops(ctx)
+    out = []
+    for meth in ('__getitem__', '__setitem__', '__delitem__'):
+        def run(st, meth=meth):
+            it = ctx.interp(st)
+            n = st.fresh('n', z3.IntSort())
+            st.assume(n >= 0)
+
+            def keys(reverse):
+                elem = (lambda i: Opaque('other', KEYAT(n - 1 - i))) if reverse else (lambda i: Opaque('other', KEYAT(i)))
+                return SymSeq(n, elem, tag='keys')
+
+            def outcomes(nm, b):
+                if nm == '__len__':
+                    return [('return', lambda it2, b2, k: SV('int', n))]          # single client: len == number of keys
+                if nm == 'iterkeys':
+                    return [('return', lambda it2, b2, k: keys(bool(b2.get('reverse'))))]
+                return ['return']
+            dq, cache, ENOVAL, maxlen = mk(ctx, st, outcomes)
+            index = st.fresh_sv('index', 'int')
+            st.ghost.update(index0=index.t, n=n)
+            value = Opaque('other', st.fresh('value', OTHER))
+            st.ghost['value'] = value
+            args = [index] + ([value] if meth == '__setitem__' else [])
+            return it.call(it.getattr(dq, meth), args, {})
+        for k, p in enumerate(explore(run)):
+            st = p.state
+            base = 'C11.%s#%d' % (meth, k)
+            for o in st.obligations:
+                out.append(discharge('%s/%s' % (base, o.name), o.kind, o.pc, o.goal, function='Deque._index', path=p.decisions))
+            if p.kind == 'cut':
+                continue
+            i0, n = st.ghost['index0'], st.ghost['n']
+            inside = z3.And(i0 >= -n, i0 < n)
+            cs = [c for c in calls(p) if c['name'] in ('__getitem__', '__setitem__', '__delitem__')]
+            if p.kind == 'raise':
+                ok = p.value.cls == 'IndexError' and not cs
+                out.append(R(base + '.indexerror_without_access', ok, meth, p, 'raises %r after %d accesses' % (p.value, len(cs))))
+                out.append(discharge(base + '.indexerror_only_outside_range', 'post', p.pc, z3.Not(inside),
+                                     function='Deque._index', path=p.decisions))
+                continue
+            if len(cs) != 1 or cs[0]['name'] != meth:
+                out.append(R(base + '.one_access', False, meth, p, 'accesses %r' % [c['name'] for c in cs]))
+                continue
+            key = cs[0]['bound']['key']
+            pos = z3.If(i0 >= 0, i0, n + i0)
+            goal = z3.And(inside, key.t == KEYAT(pos))
+            out.append(discharge(base + '.reaches_position', 'post', p.pc, goal, function='Deque._index', path=p.decisions))
+            okv = True
+            if meth == '__setitem__':
+                okv = cs[0]['bound']['value'] is st.ghost['value']
+            if meth == '__getitem__':
+                okv = p.value is cs[0]['ret']
+            out.append(R(base + '.passes_value_through', okv, meth, p, 'value / result not passed through'))
+    return out
